@@ -26,7 +26,8 @@ impl Check for C06 {
         if k == 0 {
             // large in-band chunk sizes x large messages (a foreign sender may send a 16 MiB
             // message in one chunk after announcing a chunk size that allows it)
-            for (size, len) in [(0x80_0000u32, 0x80_0001usize), (0x80_0001, 0x80_0001), (0xFF_FFFF, 16_777_215), (0x7FFF_FFFF, 16_777_215), (0x100_0000, 9_000_000)] {
+            // ... and tiny chunk sizes: one message in more than 65,536 chunks
+            for (size, len) in [(0x80_0000u32, 0x80_0001usize), (0x80_0001, 0x80_0001), (0xFF_FFFF, 16_777_215), (0x7FFF_FFFF, 16_777_215), (0x100_0000, 9_000_000), (1, 65_536), (1, 65_537), (1, 70_000), (2, 131_073)] {
                 out.eval(1);
                 let mut enc = chunk::Encoder::new();
                 let scs = chunk::set_chunk_size_msg(size, 0);
